@@ -38,7 +38,7 @@ def job_polynomial(job):
     seen = {}
 
     def fail(rec):
-        c = rec['what']
+        c = (rec['what'], str(rec.get('error'))[:40])
         seen[c] = seen.get(c, 0) + 1
         if seen[c] <= 2:
             out['failures'].append(rec)
@@ -250,7 +250,7 @@ def job_inverse_symbolic(job):
                         bad = f'blade {alg.bin2canon[k]} of {side} is not identically zero'
                 if 0 not in prod.keys() and dn[0] != Poly():
                     bad = 'scalar part missing'
-                if bad and len(out['failures']) < 10:
+                if bad and len(out['failures']) < 400:
                     out['failures'].append({'config': cfg, 'keys': ks, 'what': f'{side} != denominator (as polynomials in the coefficients): {bad}'})
         if len(out['samples']) < 2:
             out['samples'].append({'config': cfg, 'patterns': len(pats), 'example_keys': pats[-1] if pats else None})
